@@ -57,6 +57,21 @@ def translate():
     if rc != 0:
         return None, ["translator failed: " + (out + err)[-2000:]]
     schema = json.load(open(os.path.join(GEN, "schema.json")))
+    if any(p.startswith(("ErrorMessages", "no Display message", "constants.rs")) for p in schema.get("problems", [])):
+        # the result-code table is declared in a way the static reader does not understand: obtain it by RUNNING the code
+        rc, err, _ = cargo_build("tablegen")
+        if rc == 0:
+            rc, out, err = run([os.path.join(VERIF, "tablegen/target/debug/tablegen")])
+        if rc == 0 and out.strip():
+            tsv = os.path.join(GEN, "errors.tsv")
+            open(tsv, "w").write(out)
+            rc, out, err = run([os.path.join(VERIF, "extract/target/release/extract"), REPO,
+                                os.path.join(LEAN, "ZvtVerif/Generated.lean"), os.path.join(GEN, "schema.json"),
+                                os.path.join(VERIF, "harness/src/gen_dispatch.rs")], env=dict(ENV, ZVT_ERRORS_TSV=tsv))
+            if rc != 0:
+                return None, ["translator failed: " + (out + err)[-2000:]]
+            schema = json.load(open(os.path.join(GEN, "schema.json")))
+            schema["error_table_obtained_by_running_the_code"] = True
     return schema, list(schema.get("problems", []))
 
 
@@ -186,50 +201,85 @@ def driver_bin():
 
 
 def harness_bin(release=False):
+    # ZVT_HARNESS_BIN: run another build of the same harness (e.g. one instrumented for coverage, tools/coverage.sh)
+    if os.environ.get("ZVT_HARNESS_BIN") and not release:
+        return os.environ["ZVT_HARNESS_BIN"]
     return os.path.join(VERIF, "harness/target", "release" if release else "debug", "harness")
 
 
+STALL_S = 45          # a process that answers nothing for this long (no byte of output) is taken to hang in its current operation
+MAX_HANGS = 3         # after that many operations of one shard that never return, the rest of the shard is not run ("unanswered")
+
+
 def _run_once(binary, lines, timeout):
-    """one process; returns (answers, status) with status in ok|died|timeout; answers may be shorter than lines"""
+    """one process; returns (answers, status) with status in ok|died|timeout|stalled; answers may be shorter than lines.
+    The harness flushes its answers at least every 20 ms of work, so when nothing at all arrives for STALL_S seconds the
+    operation after the last complete answer is the one that does not return."""
     import tempfile
-    with tempfile.TemporaryFile("w+") as fin, tempfile.TemporaryFile("w+") as fout:
+    with tempfile.TemporaryFile("w+") as fin, tempfile.NamedTemporaryFile("w+") as fout:
         fin.write("\n".join(lines) + "\n")
         fin.seek(0)
         p = subprocess.Popen([binary], stdin=fin, stdout=fout, stderr=subprocess.DEVNULL, text=True, env=ENV)
         status = "ok"
-        try:
-            p.wait(timeout=timeout)
-        except subprocess.TimeoutExpired:
-            p.kill()
-            p.wait()
-            status = "timeout"
+        t0 = time.time()
+        last_size, last_change = -1, time.time()
+        while True:
+            try:
+                p.wait(timeout=1.0)
+                break
+            except subprocess.TimeoutExpired:
+                pass
+            now = time.time()
+            size = os.path.getsize(fout.name)
+            if size != last_size:
+                last_size, last_change = size, now
+            if now - t0 > timeout:
+                status = "timeout"
+            elif now - last_change > STALL_S and "harness" in os.path.basename(binary):
+                status = "stalled"
+            if status != "ok":
+                p.kill()
+                p.wait()
+                break
         fout.seek(0)
-        out = fout.read().split("\n")
+        data = fout.read()
+        out = data.split("\n")
+        complete = data.endswith("\n")
         if out and out[-1] == "":
             out.pop()
+        elif out and not complete:
+            out.pop()          # a half-written last line
         if status == "ok" and len(out) < len(lines):
             status = "died"
         return out, status
 
 
 def _run_shard(binary, lines, timeout):
-    """answers for all lines; an operation that kills the process is answered `died`, one that does not return `hang`"""
-    out, status = _run_once(binary, lines, timeout)
-    if status == "ok":
-        return out
-    if len(lines) == 1:
-        return ["died" if status == "died" else "hang"]
-    # keep what was answered for sure (the writer is block-buffered, so only complete answers before the failure count)
-    done = out[:-1] if out else []
-    done = done[: max(0, len(done))]
-    rest = lines[len(done):]
-    if len(rest) == 1:
-        return done + ["died" if status == "died" else "hang"]
-    mid = max(1, len(rest) // 2)
-    small_timeout = max(10, min(timeout, 5 + len(rest) // 1000))
-    a = _run_shard(binary, rest[:mid], small_timeout)
-    b = _run_shard(binary, rest[mid:], small_timeout)
-    return done + a + b
+    """answers for all lines; an operation that kills the process is answered `died`, one that does not return `hang`;
+    after MAX_HANGS such operations the remaining ones of the shard are answered `unanswered` (not run)."""
+    answers = []
+    rest = lines
+    hangs = 0
+    while rest:
+        out, status = _run_once(binary, rest, timeout)
+        if status == "ok":
+            return answers + out
+        # the process flushes complete answers only; the operation after the last answer is the culprit. A process that was
+        # killed for being silent may have answers in its buffer that never reached us: at most 20 ms worth, re-run below.
+        done = out[: len(rest) - 1] if len(out) >= len(rest) else out
+        answers += done
+        culprit = rest[len(done)]
+        # make sure it is this operation alone (and not lost buffered answers): run it in a process of its own
+        one, st1 = _run_once(binary, [culprit], min(timeout, STALL_S + 15))
+        if st1 == "ok" and len(one) == 1:
+            answers.append(one[0])
+        else:
+            answers.append("died" if st1 == "died" else "hang")
+            hangs += 1
+        rest = rest[len(done) + 1:]
+        if hangs >= MAX_HANGS and rest:
+            return answers + ["unanswered"] * len(rest)
+    return answers
 
 
 def run_lines(binary, lines, shards=1, timeout=1800):
